@@ -2,8 +2,8 @@
 import json, struct, re, os
 import vlib, parcorr, C18_syms
 
-MODELLED = ["hsv", "hsl", "ycbcr601", "cmyka"]          # bit-exact executable Lean model
-JUDGED_ONLY = ["xyz", "lab", "ycbcr709"]                # powf / defective path: Spec on the real output only
+MODELLED = ["hsv", "hsl", "ycbcr601", "ycbcr709", "cmyka"]          # bit-exact executable Lean model
+JUDGED_ONLY = ["xyz", "lab"]                            # powf: Spec on the real output only
 ONE = 0x3f800000
 
 def f32bits(x): return struct.unpack("<I", struct.pack("<f", x))[0]
@@ -48,7 +48,7 @@ def is_judged_only(op):
 ASSUME = [
     "hsv / hsl (float32), ycbcr_601 forward (double), cmyka (double scale factor of the core rgb->cmyk): partial (float) -- the Lean model reproduces the IEEE operation "
     "sequence (bit-exact correspondence on all 2^24 pixels); theorems cover the integer kernels and the exact-rational hsv case split",
-    "xyz, lab (powf) and ycbcr_709 -> rgb have no executable model: partial (transcendental) -- exhaustive real-code round trip judged by the Spec, which is evidence, not proof",
+    "xyz and lab (powf) have no executable model: partial (transcendental) -- exhaustive real-code round trip judged by the Spec, which is evidence, not proof",
     "'small fixed tolerance' is read as: exact for hsv, hsl, xyz; one 8-bit level for lab and cmyka; three levels for ycbcr (its forward conversion truncates three channels)",
     "cmyka has no converter from rgb in the toolbox: the round trip is rgb8 -> cmyk8 (core) -> cmyka8 (alpha 255) -> rgba8 (toolbox)",
 ]
@@ -105,7 +105,7 @@ def run(ctx, ops=None):
              "ga (gray_alpha8 / gray8 to rgba8), lumd (double luminance against the core weights); every op line is non-trivial (distinct op lines counted)",
         samples=samples, distinct_nontrivial=distinct, assumptions=ASSUME, trusted_base=vlib.TRUSTED_BASE,
         extra={"pixels_judged": pixels, "judged_only_ops": ctx.cov.get("judged_only_ops", 0),
-               "exhaustive_domains": ["all 2^24 rgb8 pixels per colour space (hsv, hsl, ycbcr601, cmyka: model and judge recompute every pixel in Lean; xyz, lab, ycbcr709: aggregates of the real code judged)"]},
+               "exhaustive_domains": ["all 2^24 rgb8 pixels per colour space (hsv, hsl, ycbcr601, ycbcr709, cmyka: model and judge recompute every pixel in Lean; xyz, lab: aggregates of the real code judged)"]},
         exhaustive=False)
 
 def replay(ctx, path):
